@@ -266,10 +266,11 @@ def expand (src : Text) : Outcome Text := passes MAX_EXPANSION_PASSES MAX_EXPAND
 
 /-! ## structured loop programs and their hand expansion (specification side of C42) -/
 
-/-- a loop program: plain lines and `for var in s..e:` blocks (`e` exclusive; `incl` only selects the
-`..=` spelling of the header) -/
+/-- a loop program: declarations (a first line that starts with a visible character, followed by any
+number of further lines, typically indented continuation lines) and `for var in s..e:` blocks
+(`e` exclusive; `incl` only selects the `..=` spelling of the header) -/
 inductive Block where
-  | line (t : Text)
+  | decl (first : Text) (conts : List Text)
   | loop (var : Text) (s e : Int) (incl : Bool) (body : List Block)
 
 def spaces (n : Nat) : Text := List.replicate n ' '
@@ -281,7 +282,7 @@ def headerText (var : Text) (s e : Int) (incl : Bool) : Text :=
 mutual
 /-- the program text, `unit` spaces of indentation per nesting level -/
 def render (unit depth : Nat) : Block → List Line
-  | .line t => [spaces (unit * depth) ++ t]
+  | .decl f cs => (f :: cs).map (spaces (unit * depth) ++ ·)
   | .loop v s e incl body => (spaces (unit * depth) ++ headerText v s e incl) :: renderList unit (depth + 1) body
 def renderList (unit depth : Nat) : List Block → List Line
   | [] => []
@@ -296,73 +297,90 @@ mutual
 /-- the copies written by hand: the body once per value, in order, placeholders replaced;
 nested loops are nested substitutions -/
 def hand (env : List (Text × Int)) : Block → List Line
-  | .line t => [substEnv env t]
+  | .decl f cs => (f :: cs).map (substEnv env)
   | .loop v s e _ body => (intRange s e).flatMap fun k => handList (env ++ [(v, k)]) body
 def handList (env : List (Text × Int)) : List Block → List Line
   | [] => []
   | b :: bs => hand env b ++ handList env bs
 end
 
-/-! ### well-formed loop programs (the premise of the C42 theorem) -/
-
-/-- no line break inside, not blank -/
-def cleanText (t : Text) : Bool := t.all (fun c => c != '\n' && c != '\r') && !isBlank t
-
-/-- starts with a visible character other than `{` (so the line's indentation is exactly the block's) -/
-def headOk : Text → Bool
-  | c :: _ => !isWs c && c != '{'
-  | [] => false
-
-def varOk (v : Text) : Bool := !v.isEmpty && v.all fun c => c.isAlphanum || c == '_'
-
-def Block.headOk : Block → Bool
-  | .line t => Expand.headOk t
-  | .loop .. => true
-
-def firstOk : List Block → Bool
-  | [] => true
-  | b :: _ => b.headOk
-
-/-- a continuation line (leading white space) may only follow a plain line, never a loop -/
-def adjOk : List Block → Bool
-  | [] => true
-  | .loop _ _ _ _ _ :: b :: rest => b.headOk && adjOk (b :: rest)
-  | _ :: rest => adjOk rest
+/-! ### one level of unrolling (what one pass of the expander does to the structure) -/
 
 mutual
-/-- syntactic side: clean lines, identifier variables, representable ranges of at most
-`MAX_LOOP_ITERATIONS`, the first body item sets the body's indentation -/
-def syn : Block → Bool
-  | .line t => cleanText t
-  | .loop v s e incl body =>
-    varOk v && inI64 s && inI64 e && (!incl || inI64 (e - 1)) && !tooLarge s e &&
-      firstOk body && adjOk body && synList body
-def synList : List Block → Bool
-  | [] => true
-  | b :: bs => syn b && synList bs
+/-- substitute one variable in every declaration line (loop headers carry no placeholders) -/
+def subst1 (v : Text) (k : Int) : Block → Block
+  | .decl f cs => .decl (replaceAll (pattern v) (fmtInt k) f) (cs.map (replaceAll (pattern v) (fmtInt k)))
+  | .loop v' s e i body => .loop v' s e i (subst1List v k body)
+def subst1List (v : Text) (k : Int) : List Block → List Block
+  | [] => []
+  | b :: bs => subst1 v k b :: subst1List v k bs
 end
 
-mutual
-/-- semantic side: no hand-written copy is itself a loop header -/
-def sem (env : List (Text × Int)) : Block → Bool
-  | .line t => (loopHeader (substEnv env t)).isNone
-  | .loop v s e _ body => (intRange s e).all fun k => semList (env ++ [(v, k)]) body
-def semList (env : List (Text × Int)) : List Block → Bool
-  | [] => true
-  | b :: bs => sem env b && semList env bs
-end
+/-- expand the top-level loops once -/
+def unroll1 : List Block → List Block
+  | [] => []
+  | .decl f cs :: bs => .decl f cs :: unroll1 bs
+  | .loop v s e _ body :: bs => ((intRange s e).flatMap fun k => subst1List v k body) ++ unroll1 bs
 
 mutual
 def depth : Block → Nat
-  | .line _ => 0
+  | .decl _ _ => 0
   | .loop _ _ _ _ body => depthList body + 1
 def depthList : List Block → Nat
   | [] => 0
   | b :: bs => max (depth b) (depthList bs)
 end
 
-/-- well-formed top-level loop program with `unit` spaces per level -/
+/-- lines the top-level loops produce in one pass -/
+def cost1 : List Block → Nat
+  | [] => 0
+  | .decl _ _ :: bs => cost1 bs
+  | .loop _ s e _ body :: bs => (e - s).toNat * (renderList 1 1 body).length + cost1 bs
+
+/-- lines produced by `n` passes -/
+def costIter : Nat → List Block → Nat
+  | 0, _ => 0
+  | n + 1, bs => cost1 bs + costIter n (unroll1 bs)
+
+/-- lines all loop expansions of the program produce together (compared with `MAX_EXPANDED_LINES`) -/
+def cost (bs : List Block) : Nat := costIter MAX_EXPANSION_PASSES bs
+
+/-! ### well-formed loop programs (the premise of the C42 theorem) -/
+
+/-- does not start (after leading white space) with `for ` -/
+def notFor (t : Text) : Bool := !("for ".toList.isPrefixOf (trimStart t))
+
+/-- a declaration line: no line break inside, not blank, not a `for` line -/
+def lineOk (t : Text) : Bool := t.all (fun c => c != '\n' && c != '\r') && !isBlank t && notFor t
+
+/-- starts with a visible character (so the line's indentation is exactly the block's) -/
+def headOk : Text → Bool
+  | c :: _ => !isWs c
+  | [] => false
+
+/-- ASCII letter, digit or `_` -/
+def isIdentChar (c : Char) : Bool :=
+  let n := c.toNat
+  (48 ≤ n && n ≤ 57) || (65 ≤ n && n ≤ 90) || (97 ≤ n && n ≤ 122) || n == 95
+
+def varOk (v : Text) : Bool := !v.isEmpty && v.all isIdentChar
+
+mutual
+/-- declarations start with a visible character and consist of declaration lines; loop variables are
+identifiers, ranges are representable and at most `MAX_LOOP_ITERATIONS` long -/
+def syn : Block → Bool
+  | .decl f cs => headOk f && lineOk f && cs.all lineOk
+  | .loop v s e incl body =>
+    varOk v && inI64 s && inI64 e && (!incl || inI64 (e - 1)) && !tooLarge s e && synList body
+def synList : List Block → Bool
+  | [] => true
+  | b :: bs => syn b && synList bs
+end
+
+/-- well-formed top-level loop program with `unit` spaces of indentation per level: nesting below
+`MAX_EXPANSION_PASSES`, total expansion within `MAX_EXPANDED_LINES` -/
 def wellFormed (unit : Nat) (bs : List Block) : Bool :=
-  decide (0 < unit) && synList bs && adjOk bs && semList [] bs && decide (depthList bs < MAX_EXPANSION_PASSES)
+  decide (0 < unit) && synList bs && decide (depthList bs < MAX_EXPANSION_PASSES) &&
+    decide (cost bs ≤ MAX_EXPANDED_LINES)
 
 end Varpulis.Expand
